@@ -302,6 +302,10 @@ where
     let src = move || -> T { SLOT.with(|s| s.borrow().as_ref().and_then(|b| b.downcast_ref::<T>()).map(|x| x.dup()).expect("slot holds a value of this type")) };
     lib.add(roto::Function::new(format!("sink_{idx}").as_str(), "", vec!["x"], sink, roto::location!()).expect("sink").into());
     lib.add(roto::Function::new(format!("src_{idx}").as_str(), "", vec![], src, roto::location!()).expect("src").into());
+    // ident_i(x) -> x, fst_i(a, b) -> a, snd_i(a, b) -> b: two results of registered functions alive in one expression
+    lib.add(roto::Function::new(format!("ident_{idx}").as_str(), "", vec!["x"], move |x: T| -> T { x }, roto::location!()).expect("ident").into());
+    lib.add(roto::Function::new(format!("fst_{idx}").as_str(), "", vec!["a", "b"], move |a: T, _b: T| -> T { a }, roto::location!()).expect("fst").into());
+    lib.add(roto::Function::new(format!("snd_{idx}").as_str(), "", vec!["a", "b"], move |_a: T, b: T| -> T { b }, roto::location!()).expect("snd").into());
 }
 
 struct TypeCheck {
@@ -334,6 +338,10 @@ where
     // the type as a list element: element size and stride must agree on both sides
     src.push_str(&format!(
         "fn pack(x: {ty}, y: {ty}) -> List[{ty}] {{\n    [x, y, x]\n}}\nfn second(l: List[{ty}]) -> {ty}? {{\n    l.get(1)\n}}\nfn relist(l: List[{ty}], x: {ty}) -> List[{ty}] {{\n    let m = l + [x];\n    m.push(x);\n    m\n}}\n"
+    ));
+    // the results of two calls of registered functions are alive at the same time
+    src.push_str(&format!(
+        "fn two_a(x: {ty}, y: {ty}) -> {ty} {{\n    fst_{idx}(ident_{idx}(x), ident_{idx}(y))\n}}\nfn two_b(x: {ty}, y: {ty}) -> {ty} {{\n    snd_{idx}(ident_{idx}(x), ident_{idx}(y))\n}}\nfn two_l(x: {ty}, y: {ty}) -> List[{ty}] {{\n    [ident_{idx}(x), ident_{idx}(y), ident_{idx}(x)]\n}}\n"
     ));
     let fail = |sig: &str, msg: String| -> (String, String) { (format!("{sig}:{ty}"), format!("{msg}\nvalue: {}\n--- source ---\n{src}", v.show())) };
     let mut pkg = host::compile(rt, &src).map_err(|e| fail("rejected", e))?;
@@ -382,6 +390,21 @@ where
         evals += 1;
         if !elems_are(&got, &[&v, &w, &v]) {
             return Err(fail("list-built-by-script", format!("`[x, y, x]` with x = {}, y = {} read back in Rust as {}", v.show(), w.show(), show_list(&got))));
+        }
+        drop(got);
+        for (name, want) in [("two_a", &v), ("two_b", &w)] {
+            let f = pkg.get_function::<fn(T, T) -> T>(name).map_err(|e| fail("get_function", format!("{e}")))?;
+            let got = f.call(v.dup(), w.dup());
+            evals += 1;
+            if !got.same(want) {
+                return Err(fail(&format!("two-results-alive:{name}"), format!("`{name}` with x = {}, y = {} returned {}, expected {}", v.show(), w.show(), got.show(), want.show())));
+            }
+        }
+        let f = pkg.get_function::<fn(T, T) -> List<T>>("two_l").map_err(|e| fail("get_function", format!("{e}")))?;
+        let got = f.call(v.dup(), w.dup());
+        evals += 1;
+        if !elems_are(&got, &[&v, &w, &v]) {
+            return Err(fail("two-results-alive:two_l", format!("`[ident(x), ident(y), ident(x)]` with x = {}, y = {} read back in Rust as {}", v.show(), w.show(), show_list(&got))));
         }
         drop(got);
         let l: List<T> = List::new();
